@@ -87,3 +87,14 @@ pub fn vx_chunk<T>(s: &[T], k: usize, i: usize) -> (r: &[T])
     let hi = if (i + 1) * k <= s.len() { (i + 1) * k } else { s.len() };
     &s[i * k..hi]
 }
+
+// <[T; N]>::copy_from_slice (T4): panics on a length mismatch
+#[verifier::external_body]
+pub fn vx_copy_from_slice<T: Copy, const N: usize>(dst: &mut [T; N], src: &[T])
+    requires
+        src.len() == N,
+    ensures
+        final(dst)@ == src@,
+{
+    dst.copy_from_slice(src)
+}
